@@ -462,6 +462,13 @@ func (e *Exec) doCall(common *ssa.CallCommon, fnv Val, recv *Val, args []Val, st
 	ci := e.lookupCallee(common, fnv)
 	sig := ci.sig
 	sharesCells := ci.fn != nil && (ci.fn.Parent() != nil || len(ci.fn.FreeVars) > 0)
+	if ci.con == nil || ci.con.Kind != "func" || ci.con.Flags["trusted"] {
+		for _, a := range args {
+			if a.Fn != nil && (len(a.Fn.Bindings) > 0 || a.Fn.Fn.Parent() == e.fn) {
+				sharesCells = true // a closure of this function is handed to an unverified callee, which may call it
+			}
+		}
+	}
 	e.calleeSharesCells = sharesCells
 	// coerce args to parameter types
 	all := args
@@ -593,6 +600,11 @@ func (e *Exec) doCall(common *ssa.CallCommon, fnv Val, recv *Val, args []Val, st
 		csc.results = rets
 		e.calleeSharesCells = sharesCells // (a nested call on a panic path may have changed it)
 		e.applyModifies(con, csc, st)
+		if con.Kind != "func" || con.Flags["trusted"] {
+			// (a verified callee's own contract already accounts for the calls it makes through
+			// its function parameters)
+			e.applyClosureArgEffects(all, ci, st)
+		}
 		for _, gs := range con.GhostSets {
 			if gs.Post {
 				continue
@@ -726,7 +738,7 @@ func (e *Exec) isZapPrivateComp(n string) bool {
 			// slices whose element type mentions zap types are built and owned by zap
 			return true
 		}
-		for _, p := range []string{"io.", "time.", "sync_atomic.", "bufio.", "zap.", "zapcore.", "buffer.", "zapio.", "zapgrpc.", "zaptest.", "internal_", "exp_", "observer.", "zaptest_"} {
+		for _, p := range []string{"log_slog.", "io.", "time.", "sync_atomic.", "bufio.", "zap.", "zapcore.", "buffer.", "zapio.", "zapgrpc.", "zaptest.", "internal_", "exp_", "observer.", "zaptest_"} {
 			if strings.HasPrefix(rest, p) {
 				return true
 			}
@@ -1486,6 +1498,8 @@ func (e *Exec) builtinCopy(common *ssa.CallCommon, args []Val, st *State, pos to
 			hi := c.add(lo, n)
 			c.factUnder(st.pc, fmt.Sprintf("(forall ((r!a Ref)) (! (=> (or (not (= (elem_base r!a) (sl_arr %s))) %s %s) (= (select %s r!a) (select %s r!a))) :pattern ((select %s r!a))))",
 				d.T, c.lt("(elem_idx r!a)", lo), c.le(hi, "(elem_idx r!a)"), newC, oldC, newC))
+			// copy writes only into the allocation of the destination's backing array
+			c.factUnder(st.pc, fmt.Sprintf("(forall ((r!a Ref)) (! (=> (not (= (root r!a) (root (sl_arr %s)))) (= (select %s r!a) (select %s r!a))) :pattern ((select %s r!a))))", d.T, newC, oldC, newC))
 		}
 	}
 	_ = big.NewInt
@@ -1673,4 +1687,33 @@ func (e *Exec) mayPanicHere(con *Contract, name string) bool {
 		}
 	}
 	return false
+}
+
+// applyClosureArgEffects: a closure of the function under verification that is passed to a callee may
+// be run by it any number of times: whatever the closure's contract says it modifies is havocked
+// as well (everything, if the closure has no contract).
+func (e *Exec) applyClosureArgEffects(all []Val, ci calleeInfo, st *State) {
+	c := e.c
+	for _, a := range all {
+		if a.Fn == nil || !(len(a.Fn.Bindings) > 0 || a.Fn.Fn.Parent() == e.fn) {
+			continue
+		}
+		if ci.fn != nil && ci.fn.String() == "(*sync.Once).Do" {
+			continue
+		}
+		fcon := c.CS.ByID["func "+shortID(a.Fn.Fn.String())]
+		if fcon == nil || !fcon.ModSet {
+			e.havocAll(st)
+			c.noteUncontracted("closure argument " + shortID(a.Fn.Fn.String()))
+			continue
+		}
+		binder := map[string]Val{}
+		for i, fv := range a.Fn.Fn.FreeVars {
+			if i < len(a.Fn.Bindings) {
+				binder[fv.Name()] = a.Fn.Bindings[i]
+			}
+		}
+		fsc := &Scope{e: e, c: c, cur: st.heap, old: st.heap, params: binder, names: map[string]Val{}, pkg: pkgOf(e.fn), tracks: map[string]*trackInfo{}}
+		e.applyModifies(fcon, fsc, st)
+	}
 }
